@@ -618,7 +618,7 @@ def observe(case):
                     snap["bip"] = sess.bip_check()
                 except Exception as e:
                     snap["bip"] = "bipartition check raised %s" % type(e).__name__
-                if not (op[0] == "PruneNodes" and not op[2]):    # known finding: flag ignored there
+                if not (op[0] == "PruneNodes" and not op[2] and not library_variant()[1]):   # flag ignored there before the repair
                     snap["enc"] = sess.enc_dump()
             out.append(snap)
             if snap["tree"] is None or snap["problems"]:
@@ -978,6 +978,30 @@ def c_op(op, aux, ntaxa):
     raise ValueError(op)
 
 
+_VARIANT = {}
+
+
+def library_variant():
+    """which form the two repaired sites have in the library under test (probed once per process):
+    (seed guard raises SeedNodeDeletionException, prune_nodes honours its flags)"""
+    if "v" not in _VARIANT:
+        import dendropy
+        from dendropy.utility import error as dperr
+        t = dendropy.Tree.get(data="(A,B)r;", schema="newick")
+        try:
+            t.prune_taxa_with_labels(["A", "B"])
+            guard = False
+        except dperr.SeedNodeDeletionException:
+            guard = True
+        except Exception:
+            guard = False
+        t = dendropy.Tree.get(data="((A,B)x,(C,D)y)r;", schema="newick")
+        t.prune_nodes([t.find_node_with_taxon_label("A")], suppress_unifurcations=True)
+        tail = all(len(n._child_nodes) != 1 for n in t.preorder_node_iter())
+        _VARIANT["v"] = (guard, tail)
+    return _VARIANT["v"]
+
+
 def oenc(x):
     return 0 if x is None else 2 * x + 1
 
@@ -1007,13 +1031,15 @@ def c_case(case, obs):
                                                      "None" if snap["err"] is None else "(Some %s)" % snap["err"],
                                                      zflat(enc_tree(snap["tree"])), ob(snap["rooted"]),
                                                      cbool(incr), c_enc))
-    return "(mkCase %s %s %s)" % (trees.c_tree(case["init"]), ob(case["rooted"]), clist(steps))
+    g, tl = library_variant()
+    return "(mkCase (mkVariants %s %s) %s %s %s)" % (cbool(g), cbool(tl), trees.c_tree(case["init"]),
+                                                    ob(case["rooted"]), clist(steps))
 
 
 def to_coq(case, obs):
     if case.get("probe"):
         # probes are judged by the oracle only (the resulting state may be cyclic)
-        return "(mkCase %s %s [])" % (trees.c_tree(case["init"]), ob(case["rooted"]))
+        return "(mkCase (mkVariants false false) %s %s [])" % (trees.c_tree(case["init"]), ob(case["rooted"]))
     return c_case(case, obs)
 
 
